@@ -186,7 +186,7 @@ class DropletCopy(Contract):
     def apply(self, engine, run, fi, args, kwargs):
         me = args[0]
         if kwargs or len(args) > 1 or not isinstance(me, H.SRefObj):
-            raise Undecided("copy with arguments / of a local object is inlined instead")
+            return NotImplemented          # local objects / copy with arguments: the body is executed instead
         h = H.heap_of(run)
         rec = me.fields["data"].copy()
         h.write("dtype_tag", h.read("dtype_tag", me.fields["data"].ref, sort=I), rec.ref, sort=I)
